@@ -1,7 +1,9 @@
 pub mod c01;
 pub mod c05;
 pub mod c07;
+pub mod c12;
 pub mod swapmon;
+pub mod twohop;
 
 use crate::svm::TxOutcome;
 use whirlpool::verif::{Event, StepRecord};
